@@ -1003,7 +1003,8 @@ func (s *Spec) stateOracles(e *Exec, t, r []string) {
 	case "rmschema", "rmentry", "rmfentry":
 		s.memStale = true
 	case "count", "all", "get", "getu", "exist", "ins", "many", "bulk", "del", "search", "aidx", "schema", "repair", "commit":
-		if r[0] == "ok" {
+		// (a batch without members returns before it looks at the collection)
+		if r[0] == "ok" && !(t[0] == "many" && len(t) == 1) && !(t[0] == "bulk" && len(t) <= 2) {
 			s.loaded = true
 		}
 	}
